@@ -293,13 +293,17 @@ func get(i int, z *sizes) Scenario {
 		// the same identities in another presentation (scheme, letter case, trailing slash, reordered query): the comparison
 		// cannot be decided on the strings and takes the parsing path, from two threads at once, on a shared list as well
 		// every instance spells its identities differently (a counter in the path), so that whatever the library remembers about
-		// an IRI it has seen is not yet there when the threads start - first-time paths are run by several threads at once
+		// an IRI it has seen is not yet there when the threads start - first-time paths are run by several threads at once;
+		// the counter is written with a FIXED width: a spelling that grows by a byte (9 -> 10) adds a step to every per-byte loop,
+		// and two runs of one schedule then differ in their step sequences (that was a harness defect, see DESIGN.md 8.5);
+		// ONE query key only: the comparison ranges over a map of the keys, and the order of a Go map is a source of
+		// non-determinism the scheduler does not own (with two keys the step sequence of one schedule differed between runs)
 		fresh++
 		v, w := Note(), Note()
-		v.ID = ap.IRI(fmt.Sprintf("https://example.com/notes/%d/1", fresh))
+		v.ID = ap.IRI(fmt.Sprintf("https://example.com/notes/%08d/1", fresh%100000000))
 		w.ID = v.ID
 		for k := range v.To {
-			v.To[k] = ap.IRI(fmt.Sprintf("%s/%d", v.To[k].GetLink(), fresh))
+			v.To[k] = ap.IRI(fmt.Sprintf("%s/%08d", v.To[k].GetLink(), fresh%100000000))
 			w.To[k] = v.To[k]
 		}
 		respell := func(i ap.IRI) ap.IRI {
@@ -313,9 +317,9 @@ func get(i int, z *sizes) Scenario {
 		for k, it := range w.To {
 			w.To[k] = respell(it.GetLink())
 		}
-		ids := ap.IRIs{ap.IRI(fmt.Sprintf("https://example.com/q%d?b=2&a=1&a=0", fresh)), "https://example.com/notes/1", "https://example.com/q?x=1"}
+		ids := ap.IRIs{ap.IRI(fmt.Sprintf("https://example.com/q%08d?a=1&a=0", fresh%100000000)), "https://example.com/notes/1", "https://example.com/q?x=1"}
 		return mk("S10 ItemsEqual(note, respelled note) || IRIs.Contains(respelled id) || ItemsEqual(respelled, note)", []ap.Item{v, w, ids},
-			ItemsEqual(v, w), ContainsIRI(ids, ap.IRI(fmt.Sprintf("http://EXAMPLE.com/q%d?a=0&a=1&b=2", fresh))), ItemsEqual(w, v))
+			ItemsEqual(v, w), ContainsIRI(ids, ap.IRI(fmt.Sprintf("http://EXAMPLE.com/q%08d?a=0&a=1", fresh%100000000))), ItemsEqual(w, v))
 	case 9:
 		// texts long enough for any size-triggered path (pooled or chunked buffers), different in the two threads
 		v, w := LongTexts(1, z.longN), LongTexts(2, z.longN)
